@@ -6,15 +6,16 @@ from vf.ob import obligation, shard
 
 META = {
     "bounds": "4 mutation documents (2-4 root fields, aliases, fragments at the root, nested selections with a list), <= 4 gated nested resolvers per document "
-              "(every completion order), failure placement over {none, each gated nested field, a nullable root, a non-null root}; concurrent and sequential engine configurations, mutation root type named Mutation / custom name / added by `extend schema`",
+              "(every completion order), failure placement over {none, each gated nested field, a nullable root, a non-null root, argument coercion of a nullable root}; concurrent and sequential engine configurations, mutation root type named Mutation / custom name / added by `extend schema`",
     "outside": "more than 4 simultaneously pending nested resolvers; subscription/query operations (C08)",
     "explanation": "Start/finish log of every resolver: the first event of root field i+1 must come after the last event of root field i's whole subtree.",
 }
 SDL = """
+directive @ab on ARGUMENT_DEFINITION
 type Leaf { n: Int audit: String! }
 type Mid { n: Int leaf: Leaf leaves: [Leaf] audit: String! bal: Int }
 type Query { a: Int }
-type Mutation { first: Mid second: Mid third(v: Int): Int nnroot: Int! }
+type Mutation { first: Mid second: Mid third(v: Int @ab): Int nnroot: Int! }
 """
 LOG = []
 GATES = {}
@@ -40,6 +41,21 @@ async def universal(parent, args, ctx, info):
     return read(parent, info.field_name)
 
 
+ARGFAIL = [None]
+
+
+class AB:
+    """argument-definition hook: fails while the arguments of the flagged root field are being coerced (before its resolver can run)"""
+    async def on_argument_execution(self, directive_args, next_directive, parent_node, argument_definition_node, argument_node, value, ctx):
+        v = await next_directive(parent_node, argument_definition_node, argument_node, value, ctx)
+        if ARGFAIL[0] is not None and v == ARGFAIL[0]:
+            raise ValueError("argument refused")
+        return v
+
+
+from tartiflette import Directive  # noqa: E402
+for _n in ("c09_a", "c09_b", "c09_c", "c09_d"):
+    Directive("ab", schema_name=_n)(AB())
 SDL_NAMED = SDL.replace("type Mutation {", "type Ops {") + "\nschema { query: Query mutation: Ops }\n"      # the mutation root need not be called Mutation
 SDL_EXT = SDL.replace("type Mutation {", "type Changes {") + "\nschema { query: Query }\nextend schema { mutation: Changes }\n"
 ENGS = [build(SDL, "c09_a", custom_default_resolver=universal, query_cache_decorator=DictCache()),
@@ -62,6 +78,7 @@ DOCS = {
            ["x", "first", "y"]),
 }
 ROOTS = ["Mutation", "Mutation", "Ops", "Changes"]
+ARGROOT = {"M1": ("third", 1), "M2": ("b", 2), "M3": ("third", 3), "M4": ("x", 1)}       # (response key, v) of the root field whose argument coercion is made to fail
 
 
 def doc_text(doc, eng):
@@ -94,8 +111,8 @@ def serial(log, roots):
 @obligation(tier="quick", timeout=300, shards=[{"doc": d, "eng": e} for d in DOCS for e in range(len(ENGS))],
             samples=[{"c0": 0, "c1": 0, "c2": 0, "c3": 0, "fault": 0}, {"c0": 2, "c1": 1, "c2": 1, "c3": 0, "fault": 2}],
             symbolic=["c0..c3: completion order of the pending nested resolvers"],
-            selectors=["fault: none / one of the gated nested fields / the second root field (nullable) / the non-null root", "shard: document, engine configuration"],
-            bounds="every completion order of <= 4 gated nested resolvers x 7 failure placements",
+            selectors=["fault: none / one of the gated nested fields / the second root field (nullable) / the non-null root / the ARGUMENTS of a nullable root field fail to coerce (argument-definition hook raising)", "shard: document, engine configuration"],
+            bounds="every completion order of <= 4 gated nested resolvers x 8 failure placements",
             note="serial start/finish log, nullable failing root does not stop the next, non-null failing root nulls data, response keys in document order")
 def c09_serial(c0: int, c1: int, c2: int, c3: int, fault: int) -> bool:
     """
@@ -104,8 +121,11 @@ def c09_serial(c0: int, c1: int, c2: int, c3: int, fault: int) -> bool:
     sh = shard()
     _, gates, roots = DOCS[sh["doc"]]
     q = doc_text(sh["doc"], sh["eng"])
-    fault = pick(fault, len(gates) + 3)
-    del LOG[:]; GATES.clear(); FAULTS.clear()
+    fault = pick(fault, len(gates) + 4)
+    del LOG[:]; GATES.clear(); FAULTS.clear(); ARGFAIL[0] = None
+    argkey = None
+    if fault == len(gates) + 3:
+        argkey, ARGFAIL[0] = ARGROOT[sh["doc"]]
     for g in gates:
         GATES[g] = True
     fpath = None
@@ -130,7 +150,7 @@ def c09_serial(c0: int, c1: int, c2: int, c3: int, fault: int) -> bool:
     observe(resp, log)
     if not ok:
         return verdict(False)
-    if not serial(log, roots):
+    if not serial(log, [r for r in roots if r != argkey]):      # the root whose arguments fail never reaches its resolver: it has no events
         return verdict(False)
     starts = [p for kk, p in log if kk == "start"]; ends = [p for kk, p in log if kk == "end"]
     if set(starts) != set(ends) or len(starts) != len(set(starts)) or loop.pending or not all(t.done() for t in loop.tasks):
@@ -141,9 +161,13 @@ def c09_serial(c0: int, c1: int, c2: int, c3: int, fault: int) -> bool:
         return verdict(data is None and bool(resp.get("errors")))
     if data is None or list(data.keys()) != roots:
         return verdict(False)
-    # every root ran (a failing nullable root does not prevent the following ones)
-    if not all((r,) in starts for r in roots):
+    # every root ran (a failing nullable root does not prevent the following ones); a root whose ARGUMENTS could not be coerced fails alone:
+    # its resolver is not called, it answers null with an error at its path, and the roots after it still run
+    if not all((r,) in starts for r in roots if r != argkey):
         return verdict(False)
+    if argkey is not None:
+        if (argkey,) in starts or data[argkey] is not None or not any(e.get("path") == [argkey] for e in resp.get("errors") or []):
+            return verdict(False)
     if fpath is not None and fpath[0] in roots and (len(fpath) == 1 or fpath in starts):
         if not resp.get("errors"):
             return verdict(False)
